@@ -51,8 +51,19 @@ def main(argv):
                 fired[c] = {"exit": out.returncode, "violations": lines[:5], "with_failing_input": any("no-failing-input-found" not in l for l in lines if l.startswith("VIOLATION")),
                             "wall_s": round(time.time() - t0, 1)}
                 print(f"{name}: check {c}: exit {out.returncode} " + (lines[0][:160] if lines else "(silent)"), flush=True)
+                # does the replay file stand on its own? with the change: the violation shows again; without it (below): it does not
+                rp = next((l.split("replay=")[1].split()[0] for l in lines if l.startswith("VIOLATION") and "no-failing-input-found" not in l), None)
+                if rp:
+                    rr = sh(f"cd {ROOT} && timeout 900 ./check {c} --replay {rp}")
+                    fired[c]["replay"] = rp
+                    fired[c]["replay_with_change_exit"] = rr.returncode
         finally:
             sh(f"git -C {REPO} checkout -- .")
+        for c, f in fired.items():
+            if f.get("replay"):
+                rr = sh(f"cd {ROOT} && timeout 900 ./check {c} --replay {f['replay']}")
+                f["replay_without_change_exit"] = rr.returncode
+                print(f"{name}: replay of {c}: with the change exit {f['replay_with_change_exit']}, without it exit {rr.returncode}", flush=True)
         summary[name] = {"property": prop, "fired": fired, "caught_by_own_check": fired.get(prop, {}).get("exit") == 1}
         with open(os.path.join(d, "result.json"), "w") as f:
             json.dump(summary[name], f, indent=1)
